@@ -21,6 +21,7 @@ pub fn def() -> PropDef {
         block: 1,
         flavours: &["tokio"],
         outcome: None,
+        extra_profiles: &[],
     }
 }
 
